@@ -112,6 +112,10 @@ struct Runner
   uint64_t cur_size_model{0};
   // evidence
   uint64_t rotations{0}, deletions_seen{0};
+  // an operator (or a clean-up job) removes the OLDEST retained backup while the sink is running - something the file
+  // sinks explicitly cope with. The statements in it are gone by the operator's hand (still the oldest ones, so the
+  // "only a prefix is missing" rule is unaffected); the backup count must stay bounded afterwards.
+  bool operator_removed_a_backup{false};
   // known-defect observability: rotated files an append-mode restart inherits but (by reading the recovery rule
   // off the directory, not off the sink) cannot have recovered: all of them with DateAndTime naming, those with a
   // date other than the start day with Date naming
@@ -238,6 +242,7 @@ struct Runner
       if (++before_opens == crash_at_open) throw CrashNow{};
     };
     bool crashed = false;
+    bool const operator_may_remove = c.freq == 0 && c.naming == 0 && c.restarts == 0 && !c.unlimited && c.overwrite && c.backups >= 2 && r.chance(1, 3);
     std::string const base = dir + "/base.log";
     std::unique_ptr<quill::RotatingFileSink> sink;
     try
@@ -317,6 +322,25 @@ struct Runner
       }
       cur_size_model += sz;
       if (r.chance(1, 10)) sink->flush_sink();
+      if (operator_may_remove && !operator_removed_a_backup && opens >= 3 && r.chance(1, 3))
+      {
+        // Index naming: the oldest backup carries the highest index
+        uint32_t hi = 0;
+        std::string victim;
+        for (auto const& e : fs::directory_iterator(dir))
+        {
+          FileView fv;
+          std::string const fn = e.path().filename().string();
+          if (planted.count(fn) || !parse_name(fn, fv) || fv.current) continue;
+          if (fv.index >= hi) { hi = fv.index; victim = e.path().string(); }
+        }
+        if (!victim.empty())
+        {
+          fs::remove(victim);
+          operator_removed_a_backup = true;
+          g_stats.add("directories_in_which_an_operator_removed_the_oldest_backup");
+        }
+      }
     }
     try
     {
@@ -506,7 +530,8 @@ struct Runner
     if (clean_universe && last_w_instance == 0 && instance_mode.size() >= 1)
     {
       uint64_t want = c.unlimited ? rot_since : std::min<uint64_t>(rot_since, c.backups);
-      if (rotated_universe != want)
+      if (operator_removed_a_backup && rotated_universe + 1 == want) {} // one file short until the next rotations fill up again
+      else if (rotated_universe != want)
         return fail(rotated_universe < want ? "fewer-rotated-files-than-expected" : "more-rotated-files-than-expected",
                     J{}.unum("rotated_files", rotated_universe).unum("expected", want).unum("rotations_observed", rot_since).unum("backups", c.backups));
     }
